@@ -82,3 +82,48 @@ contract(
     inline_at_calls=True,        # callers (part / rule serialisation) run the serialiser's body on their own condition
     serves=["C11", "C13"],
 )
+
+
+class DslTree(Shape):
+    """A combination built by the real operators from DSL leaves: (op, left, right) with op in '&|^'."""
+
+    def __init__(self, op, left, right):
+        self.op, self.left, self.right = op, left, right
+
+    def make(self, ip, name):
+        a = self.left.make(ip, name + "l")
+        b = self.right.make(ip, name + "r")
+        meth = {"&": "__and__", "|": "__or__", "^": "__xor__"}[self.op]
+        obj = ip.call(ip.get_attr(a, meth), [b], {})
+        obj.fresh = False
+        return obj
+
+
+def trees():
+    V, K, I = cnds.Value, cnds.Key, cnds.Index
+    l = [DslLeaf(V, "less_than", [Scalar()]), DslLeaf(cnds.ValueLength, "equal_to", [Scalar()]),
+         DslLeaf(K, "equal_to", [Scalar()]), DslLeaf(I, "greater_than", [Scalar()]), DslLeaf(cnds.ValueDataType, "equal_to", [Const(int)]),
+         DslLeaf(V, "keys_contain_any_of", [Scalar(), Scalar()])]
+    out = []
+    for op in "&|^":
+        out += [DslTree(op, l[0], l[1]), DslTree(op, l[2], l[0]), DslTree(op, l[4], l[3])]
+        for op2 in "&|^":
+            out.append(DslTree(op, DslTree(op2, l[0], l[1]), l[5]))        # (a . b) . c
+            out.append(DslTree(op, l[0], DslTree(op2, l[1], l[5])))        # a . (b . c)
+            out.append(DslTree(op, DslTree(op2, l[2], l[0]), DslTree(op, l[1], l[4])))
+    return out
+
+
+contract(
+    "valida.conditions:ConditionBinaryOp.to_json_like",
+    variants=[dict(self=t) for t in trees()],
+    ensures=lambda self, result:
+        IsJson(result)
+        and same(cnds.ConditionLike.from_spec(result), self)
+        and same(cnds.ConditionLike.from_spec(result).to_json_like(), result),
+    raises={},
+    inline_at_calls=True,
+    serves=["C11", "C12", "C13"],
+    note="combinations of two and three leaves, nested on either side, every pair of operators: the serialised form is "
+         "parsed back (by from_spec's own body) to a structurally identical tree and serialises to the same data again",
+)
